@@ -578,6 +578,19 @@ def havoc_paths(interp, modifies: dict, loc: dict):
     for path, ty in modifies.items():
         parent, key = _resolve_parent(interp, path, loc)
         freshv = ty.fresh(interp.ctx, "havoc:" + path)
+        # a havocked object list may be *defined* by a positive equation of the postcondition (Interp._bind_plists)
+        stack, seen = [freshv], set()
+        while stack:
+            x = stack.pop()
+            if id(x) in seen:
+                continue
+            seen.add(id(x))
+            if isinstance(x, sym.PList) and x.base is not None:
+                interp.unbound_bases.add(x.base.get_id())
+            elif isinstance(x, Rec):
+                stack.extend(x.fields.values())
+            elif isinstance(x, sym.SOpt):
+                stack.append(x.val)
         if parent is None:
             cur = loc.get(key)
             if not _replace_in_place(cur, freshv):
@@ -586,6 +599,8 @@ def havoc_paths(interp, modifies: dict, loc: dict):
                 loc[key] = freshv
         else:
             parent = sym.force(interp.ctx, parent)
+            if parent is None:
+                continue  # the owner is None in this state: the location does not exist (modifies is an upper bound)
             if isinstance(parent, Rec) and isinstance(key, str):
                 cur = parent.fields.get(key)
                 if not _replace_in_place(cur, freshv):
